@@ -129,7 +129,7 @@ def parse_record(line):
     if k == "I":
         ids = list(o[1]) + [0] * (3 - len(o[1]))
         packed = o[2].get("_packed") or {}
-        rows = len(next(iter(packed.values()))) if packed else 0
+        rows = len(next(iter(packed.values()))) if packed else int(o[2].get("_n") or 0)
         return ("I", int(ids[0]), int(ids[1]), int(ids[2]), rows)
     raise ValueError("unknown record %r" % (o,))
 
@@ -176,8 +176,10 @@ class Log:
         if gz:
             # DiskSink(batch=1) writes one gzip member per record and one EMPTY member when a run ends
             self.mends, self.mrecs, n, prev = [0], [0], 0, 0
+            self.members = []       # (compressed bytes, payload line without its newline or None for an empty payload)
             for end in gz_members(data):
                 body = gzip.decompress(data[prev:end])
+                self.members.append((data[prev:end], body[:-1] if body else None))
                 if body and not (body.endswith(b"\n") and body.count(b"\n") == 1):
                     raise LogShape("a gzip member of the log holds something else than one record line")
                 n += 1 if body else 0
@@ -258,10 +260,11 @@ def exc_class(e, gz):
 # ------------------------------------------------------------------ which repairs does the tree contain
 _FLAGS = {}
 PROBE = {"envs": [{"n": 2}], "lrns": [{}], "vals": [{"nrows": 2}], "desc": "probe"}
+PROBE0 = {"envs": [{"n": 0}], "lrns": [{}], "vals": [{"mode": "cb"}], "desc": "probe"}
 
 
 def detect_flags():
-    """[repairPlain, preambleFix, repairGz], decided by behaviour on three canonical inputs"""
+    """[repairPlain, preambleFix, repairGz, finishedFix], decided by behaviour on four canonical inputs"""
     key = os.environ.get("COBA_REPO", "/repo")
     if key in _FLAGS:
         return _FLAGS[key]
@@ -291,6 +294,14 @@ def detect_flags():
                 open(p2, "wb").write(log.data[:log.bounds[1]])
                 st2, res2 = run(PROBE, p2, None, CFG1)
                 out.append(st2 == "ok" and canon_result(res2)["experiment"] == ref["experiment"])
+        # finished-triples repair: a recorded evaluation without rows is not evaluated again
+        trace = os.path.join(d, "trace")
+        p3 = os.path.join(d, "rowless.log")
+        st3, _ = run(PROBE0, p3, trace, CFG1)
+        if os.path.exists(trace):
+            os.remove(trace)
+        st4, _ = run(PROBE0, p3, trace, CFG1)
+        out.append(st3 == "ok" and st4 == "ok" and read_trace(trace) == [])
         _FLAGS[key] = out
         return out
     finally:
@@ -509,7 +520,7 @@ class C02(Property):
             tags.append("chunk:all")
         if case.get("big"):
             tags.append("long-record:>1MiB" if case["big"]["size"] > (1 << 20) else "long-record:>64KiB")
-        tags.append("flags:%d%d%d" % tuple(int(x) for x in flags))
+        tags.append("flags:" + "".join(str(int(x)) for x in flags))
 
         # the uninterrupted run
         full_path = file_at(d, "full", case)
@@ -539,6 +550,7 @@ class C02(Property):
                 table.append([rec[0], rec[1], rec[2], rec[3], rec[4], len(table), list(ln)])
             return tindex[ln]
         full_idx = [entry(ln, r) for ln, r in zip(log.lines, log.recs)]
+        is_magic = log.data[:2] == b"\x1f\x8b"
         sp = case.get("sparse")
         if sp and not case.get("chunk") and len(log.lines) > 2:
             # what a multi-process run (every task its own chunk) leaves when it is killed: version + experiment line and the
@@ -608,18 +620,31 @@ class C02(Property):
                 groups = {}
                 for n, st_ in enumerate(steps):
                     groups.setdefault(id(st_[1]), []).append(n)
+                mtbl, mindex = [], {}       # .gz: the gzip members of the real files, [table index of the payload line or -1, bytes]
+                name_bytes = list(full_path.encode("utf-8"))
                 for _, ns in groups.items():
                     lg, lidx = steps[ns[0]][1], steps[ns[0]][2]
-                    cuts = []
-                    for n in ns:
-                        k = steps[n][3]
-                        if gz:
-                            cls, j, tail = lg.cut_class(k)
-                            cuts.append([j, bool(tail)])
-                        else:
-                            cuts.append(k)
-                    ans = driver.ask({"tbl": table, "ver": ver_i, "exp": exp_i, "triples": triples_of(case), "flags": [bool(x) for x in flags],
-                                      "log": lidx, "gz": gz, "cuts": cuts})
+                    req = {"tbl": table, "ver": ver_i, "exp": exp_i, "triples": triples_of(case), "flags": [bool(x) for x in flags],
+                           "log": lidx, "gz": gz, "cuts": [steps[n][3] for n in ns], "name": name_bytes}
+                    if gz:
+                        mlog = []
+                        for mb, line in lg.members:
+                            if mb not in mindex:
+                                mindex[mb] = len(mtbl)
+                                mtbl.append([tindex[line] if line is not None else -1, list(mb)])
+                            mlog.append(mindex[mb])
+                        req["mtbl"], req["mlog"] = mtbl, mlog
+                    ans = driver.ask(req)
+                    dec = ans.get("gz_decision")
+                    if dec is not None:
+                        if not (dec[0] == dec[1] == dec[2]):
+                            fails.append(F("A", "sink, source and torn-tail repair (as extracted from the source) disagree whether %r is a gzip file: %s"
+                                           % (name_of(case), dec), "A:gz-decision-inconsistent"))
+                        if bool(dec[0]) != is_magic:
+                            fails.append(F("A", "result file %r: the sink wrote %s, the extracted sink predicate says gzip=%s"
+                                           % (name_of(case), "gzip" if is_magic else "plain text", dec[0]), "A:gz-decision-sink"))
+                    if not ans.get("gz_extracted", True):
+                        tags.append("gz-predicates:not-extracted")
                     for n, mo in zip(ns, ans["cuts"]):
                         self.compare(case, steps[n], observed[n], mo, ans["hyp"], flags, table, fails, tags)
                         model.append({"k": steps[n][3], "model": {kk: vv for kk, vv in mo.items() if kk != "spec"}, "hyp": ans["hyp"]})
@@ -648,6 +673,18 @@ class C02(Property):
             f.write(cut)
         if os.path.exists(trace):
             os.remove(trace)
+        good = None
+        if gz and detect_flags()[2]:
+            # the real member scan alone: `_drop_torn_tail` on a copy of the cut file, observable = the size it leaves
+            try:
+                from coba.experiments import Experiment
+                pp = file_at(d, "probe", case)
+                with open(pp, "wb") as f:
+                    f.write(cut)
+                Experiment._drop_torn_tail(pp)
+                good = os.path.getsize(pp)
+            except Exception:
+                good = None
         where = "result file %r: %s cut at byte %d of %d (%s, %d complete records%s) resumed with %s" % (
             name_of(case), fmt, k, len(lg.data), cls, j, ", further interruption of the same file" if label == "chain" else "", json.dumps(cfg, sort_keys=True))
         if not gz and tail and cls == "torn":
@@ -659,7 +696,7 @@ class C02(Property):
         st, res = run(case, path, trace, cfg)
         final = open(path, "rb").read()
         evaluated = read_trace(trace)
-        ob = {"path": path, "class": cls, "status": st, "evaluated": [list(t) for t in evaluated], "final_data": final, "j": j, "cut": cut,
+        ob = {"path": path, "good": good, "class": cls, "status": st, "evaluated": [list(t) for t in evaluated], "final_data": final, "j": j, "cut": cut,
               "restored_n": j, "ntasks": 0, "final_readable": False, "kept_records": j}
         recorded = set()      # object triples with an I record among the complete lines of the cut file
         recorded_rows = {}
@@ -731,6 +768,9 @@ class C02(Property):
         if m_stage != i_stage:
             fails.append(F("A", "%s: implementation %s, model %s" % (where, i_stage, m_stage), "A:outcome:" + sigc))
             return
+        if gz and ob.get("good") is not None and "good" in mo and mo["good"] != ob["good"]:
+            fails.append(F("A", "%s: _drop_torn_tail leaves %d bytes of the .gz file, the model's member scan %d" % (where, ob["good"], mo["good"]),
+                           "A:gz-member-scan:" + sigc))
         if mo["restore"] == "raise":
             return
         # tasks evaluated
@@ -763,7 +803,12 @@ class C02(Property):
             fails.append(F("A", "%s: final Result equals the uninterrupted one: implementation %s, model %s" % (where, ob["result_equal"], mo["result_equal"]),
                            "A:result-equal:" + sigc))
         # (C) the theorems' promise, evaluated on the model's own outcome
-        if all(flags) and hyp["world_ok"] and hyp["valid_log"] and hyp["nonempty_i"]:
+        hyp_ok = hyp["world_ok"] and hyp["valid_log"] and (flags[3] or hyp["nonempty_i"])
+        if gz:
+            hyp_ok = hyp_ok and hyp.get("member_table_ok", True) and hyp.get("payload_log", True)
+            if not hyp.get("member_table_ok", True):
+                fails.append(F("A", "the gzip members of the real file are not prefix-free / one is empty (memberTableOK fails)", "A:member-table-not-ok"))
+        if all(flags[:3]) and hyp_ok:
             bad = [kk for kk, vv in mo["spec"].items() if not vv]
             if mo["final"] != "ok" or bad:
                 fails.append(F("C", "%s: the model violates the spec although the theorems' hypotheses hold: %s" % (where, bad or "final read raises"), "C:spec"))
